@@ -827,13 +827,18 @@ def special_c07(res, tier, seed, workdir, stats):
 CORE_LEAN = os.path.join(hh.LEAN, "HH", "Generated", "PortableCore.lean")
 CORE_THMS = {"module_reduction": ["moduleReduction_eq"], "permute": ["permute_eq"], "zipper_merge_and_add": ["zipperPair_eq"],
              "update": ["update_eq"], "update_lanes": ["updateLanes_eq"], "new": ["newState_eq"], "finalize64": ["out64_eq", "finalize64_shape"],
-             "finalize128": ["out128_eq", "finalize128_shape"], "finalize256": ["out256_eq", "finalize256_shape"]}
+             "finalize128": ["out128_eq", "finalize128_shape"], "finalize256": ["out256_eq", "finalize256_shape"],
+             "data_to_lanes": ["dataToLanes_eq"], "remainder": [f"remainder{n}_eq" for n in range(33)],
+             "update_remainder": [f"updateRemainder{n}_eq" for n in range(1, 32)],
+             "unordered_load3": [f"unorderedLoad3_{n}_eq" for n in (0, 1, 2, 3, 5, 6, 7)]}
 
 
 def core_translation(res, tier, seed, workdir, stats):
     """second tie for the arithmetic core of C01: `coregen` (syn, symbolic execution of straight-line code) translates
-    module_reduction, permute, zipper_merge_and_add, update, the key schedule of new and the round counts / output
-    expressions of finalize64/128/256 from the CURRENT src/portable.rs into Lean (HH/Generated/PortableCore.lean), and
+    module_reduction, permute, zipper_merge_and_add, update, update_lanes, the key schedule of new, the round counts /
+    output expressions of finalize64/128/256, data_to_lanes, remainder (every length 0..=32), update_remainder (every
+    pending length 1..=31, through HashPacket::len / as_slice of src/internal.rs) and unordered_load3
+    from the CURRENT src/portable.rs + src/internal.rs into Lean (HH/Generated/PortableCore.lean), and
     each translation is proved equal to the hand-written model for all inputs (by `rfl`: the model mirrors the source).
     Advisory by construction: a function the translator cannot handle any more is 'not translated'; a translated
     function whose theorem fails means the source text differs from the model - the dynamic tie then decides, after an
@@ -847,7 +852,8 @@ def core_translation(res, tier, seed, workdir, stats):
         return
     tmp = CORE_LEAN + ".new"
     status_json = os.path.join(hh.BUILD, "coregen.json")
-    rc, out, err = hh.sh([os.path.join(hh.BUILD, "t-facts", "release", "coregen"), os.path.join(hh.REPO, "src", "portable.rs"), tmp, status_json], timeout=300)
+    rc, out, err = hh.sh([os.path.join(hh.BUILD, "t-facts", "release", "coregen"), os.path.join(hh.REPO, "src", "portable.rs"), tmp, status_json,
+                          os.path.join(hh.REPO, "src", "internal.rs")], timeout=300)
     if rc != 0:
         info["status"] = "not executed: src/portable.rs does not parse / translator failed: " + (out + err)[-300:]
         return
@@ -865,8 +871,9 @@ def core_translation(res, tier, seed, workdir, stats):
     if ok:
         ax, text = hh.audit_axioms("HH.Generated.PortableCore", thms)
         good = [t for t in thms if ax.get(t) is not None and not (ax[t] - hh.STD_AXIOMS)]
-        info["theorems_checked"] = good
-        info["status"] = f"{len(translated)}/{len(st)} functions translated from the working tree; {len(good)}/{len(thms)} equality theorems (source translation = model, all inputs) checked by the kernel"
+        info["theorems_checked"] = len(good)
+        info["theorems_failed"] = [t for t in thms if t not in good][:20]
+        info["status"] = f"{len(translated)}/{len(st)} functions translated from the working tree; {len(good)}/{len(thms)} equality theorems (source translation = model, all inputs; remainder / update_remainder / unordered_load3: one theorem per buffer length, bytes universally quantified) checked by the kernel"
         if len(good) == len(thms):
             return
     # translated but not (all) proved equal: the text of the core differs from the model
